@@ -196,7 +196,7 @@ func runC07(e *Env) Outcome {
 		if !e.Thorough() && depth > 1001 {
 			depth = 1001
 		}
-		if t.Chance("very-deep", 1, 100) {
+		if t.Chance("very-deep", 1, 100) && f == gen.CTE {
 			// hundreds of thousands of levels: under the worker's 64 MB stack
 			// cap this shows whether the recursion of the parser / decoder is
 			// bounded at all (the nesting limit of the rules must act before
